@@ -429,12 +429,30 @@ fn run_with_scripts(ev: &Eval, req: &Req, base: &EntSpec, sp: (usize, usize, usi
 pub fn run_c01(run: &mut Run) -> Stats {
     let sp = C01Space::new(run.tier);
     let outer = sp.outer();
-    run.rule = "full categorical product: methods {GET,POST,FOO} x Range class (10) x If-Range (4) x If-Match (5) x If-None-Match (5) x If-Modified-Since (4) x If-Unmodified-Since (4) x entity length x etag {absent,strong} x mtime {absent,sub-second}; every request whose model predicts a body is run once per contract-honouring chunking (compositions into <= kmax chunks, <= dev empty-chunk/Pending insertions) of each predicted get_range call. non-trivial = distinct (request, entity, chunking) whose response carried or announced a body length".into();
+    run.rule = "full categorical product: methods {GET,POST,FOO} x Range class (10) x If-Range (4) x If-Match (5) x If-None-Match (5) x If-Modified-Since (4) x If-Unmodified-Since (4) x entity length x etag {absent,strong} x mtime {absent,sub-second}; plus the multipart length families of C06 (a start / end / L at 10^k-1..10^k-3 for every k <= 19; L within 40 bytes of 2^64 with a 150..260-byte window) x 3 entity header sets; every request whose model predicts a body is run once per contract-honouring chunking (compositions into <= kmax chunks, <= dev empty-chunk/Pending insertions) of each predicted get_range call. non-trivial = distinct (request, entity, chunking) whose response carried or announced a body length".into();
     run.bounds = json!({"lengths": sp.lens.iter().map(|l| l.to_string()).collect::<Vec<_>>(), "kmax_chunks": sp.kmax, "benign_deviations": sp.dev, "max_events": sp.max_events, "extra_polls": 2});
     run.assumptions.push("entity streams honour the Entity contract (C07 covers the others)".into());
     let ev = Eval { prop: &run.prop.clone(), extra_polls: 2 };
     let spr = (sp.kmax, sp.dev, sp.max_events);
-    par_for(outer.len() as u64, threads(), |i, st| {
+    // first the multipart length families (decimal widths at every power of ten, totals next to
+    // 2^64): the announced length of a multipart body is computed, not copied
+    let special = multipart_specials(run.tier);
+    let hsets = gen::header_sets();
+    run.extra.insert("multipart_length_families".into(), json!(special.len() * 3));
+    let mut total = par_for(special.len() as u64 * 3, threads(), |i, st| {
+        let (l, set) = &special[(i / 3) as usize];
+        let hi = (i % 3) as usize;
+        let h = format!("bytes={}", set.iter().map(|(a, b)| format!("{a}-{b}")).collect::<Vec<_>>().join(", "));
+        let req = Req::new("GET").with("range", h.as_bytes());
+        let base = ent(*l, Some(b"\"v1\""), Some(gen::t(gen::LM, 0)), hsets[hi].clone(), vec![]);
+        let mut order = (1 << 62) + (i << 20);
+        run_with_scripts(&ev, &req, &base, (2, 1, 3), st, &mut order, |req, e, obs, _m, st, _| {
+            if obs.hdr("content-length").is_some() || !obs.body.steps.is_empty() {
+                st.nontrivial(&(req, ent_key(e), &e.scripts));
+            }
+        });
+    });
+    let main = par_for(outer.len() as u64, threads(), |i, st| {
         let item = &outer[i as usize];
         let mut order = i << 32;
         sp.requests(item, |req| {
@@ -446,7 +464,9 @@ pub fn run_c01(run: &mut Run) -> Stats {
                 st.sample(2, || json!({"request": req.to_json(), "entity_len": e.len.to_string(), "scripts": e.scripts.iter().map(|s| s.to_json()).collect::<Vec<_>>(), "status": obs.status, "content_length": obs.hdr("content-length").map(|c| String::from_utf8_lossy(c).to_string()), "delivered": obs.body.delivered().to_string()}));
             });
         });
-    })
+    });
+    total.merge(main);
+    total
 }
 
 // -------------------------------------------------------------------------------------------
@@ -986,7 +1006,7 @@ pub fn run_c05(run: &mut Run) -> Stats {
         if_ranges.push(fmt_rfc850(d).into_bytes());
         if_ranges.push(fmt_asctime(d).into_bytes());
     }
-    let alpha: [u8; 7] = [b'"', b'W', b'/', b'v', b'1', b' ', 0xff];
+    let alpha: [u8; 8] = [b'"', b'W', b'/', b'v', b'1', b' ', 0xff, b','];
     let maxlen = tier.pick(4, 6);
     let mut cur: Vec<Vec<u8>> = vec![vec![]];
     for _ in 0..maxlen {
@@ -1014,6 +1034,18 @@ pub fn run_c05(run: &mut Run) -> Stats {
             if_ranges.push(x);
         }
         if_ranges.push(e[..n - 1].to_vec());
+        // the tag followed / preceded by what a LIST parser would swallow or skip: If-Range holds
+        // one validator, not a list
+        for suf in [&b","[..], b", ", b" ,", b",,", b", \t", b"\t", b";", b"; ", b",\"v2\"", b", W/\"v1\"", b", *", b"x"] {
+            let mut y = e.clone();
+            y.extend_from_slice(suf);
+            if_ranges.push(y);
+        }
+        for pre in [&b","[..], b", ", b"\"v2\", ", b"*, "] {
+            let mut y = pre.to_vec();
+            y.extend_from_slice(e);
+            if_ranges.push(y);
+        }
         // near misses that a "normalising" comparison would accept: a backslash inserted at every
         // position inside the quotes (quoted-pair), a backslash removed, the case changed,
         // percent-encoding of one byte
@@ -1050,7 +1082,7 @@ pub fn run_c05(run: &mut Run) -> Stats {
             }
         }
     }
-    run.rule = "entity etag {absent, strong, weak} x mtime {absent, whole, sub-second} x If-Range {absent, same strong, same opaque weak, different, case/prefix/suffix/unterminated variants, dates LM-1/LM/LM+1 in three formats, every byte string of length <= n over {\" W / v 1 SP 0xff}} x Range {one satisfiable, two (multipart zone), two (200 zone), unsatisfiable, absent} x GET/HEAD x L in {10,400}; the short and tag-like If-Range values also next to a passing If-Match ('*', the entity's tag) and a non-matching If-None-Match; oracle: 206/416 only if If-Range is absent or byte-identical to a strong entity etag (exact-date match admitted either way), and then exactly what C03 prescribes. non-trivial = distinct (entity validators, If-Range, Range, method, L) with an If-Range header".into();
+    run.rule = "entity etag {absent, strong, weak} x mtime {absent, whole, sub-second} x If-Range {absent, same strong, same opaque weak, different, case/prefix/suffix/unterminated variants, dates LM-1/LM/LM+1 in three formats, every byte string of length <= n over {\" W / v 1 SP 0xff ,}, every entity tag followed / preceded by list syntax (comma, blanks, semicolon, a second tag)} x Range {one satisfiable, two (multipart zone), two (200 zone), unsatisfiable, absent} x GET/HEAD x L in {10,400}; the short and tag-like If-Range values also next to a passing If-Match ('*', the entity's tag) and a non-matching If-None-Match; oracle: 206/416 only if If-Range is absent or byte-identical to a strong entity etag (exact-date match admitted either way), and then exactly what C03 prescribes. non-trivial = distinct (entity validators, If-Range, Range, method, L) with an If-Range header".into();
     run.bounds = json!({"if_range_values": if_ranges.len(), "max_arbitrary_len": maxlen});
     let ev = Eval { prop: &run.prop.clone(), extra_polls: 1 };
     par_for(outer.len() as u64, threads(), |i, st| {
@@ -1151,6 +1183,33 @@ fn multi_range_sets(l: u64, tier: Tier) -> Vec<Vec<(u64, u64)>> {
     v
 }
 
+/// (L, range set) families where the multipart length arithmetic is most likely to go wrong:
+/// decimal boundaries (a start / end / L at 10^k-1 .. 10^k-3 for every k <= 19) and L within a few
+/// bytes of 2^64 with ranges that leave a 150..260-byte window (exact length crosses 2^64 or not).
+pub fn multipart_specials(tier: Tier) -> Vec<(u64, Vec<(u64, u64)>)> {
+    let mut special: Vec<(u64, Vec<(u64, u64)>)> = Vec::new();
+    for k in 3..=19u32 {
+        let p = 10u64.pow(k);
+        let l1 = p.saturating_add(5);
+        for j in 0..3u64 {
+            special.push((l1, vec![(0, 0), (p - 1 - j, p - 1)]));
+            special.push((l1, vec![(p - 1 - j, p - 1 - j), (3, 4), (p - 2, p - 1)]));
+        }
+        for d in 1..=3u64 {
+            special.push((p - d, vec![(0, 0), (5, 5)]));
+            special.push((p - d, vec![(p - d - 1, p - d - 1), (1, 2)]));
+        }
+    }
+    for l in [u64::MAX, u64::MAX - 1, u64::MAX - 40] {
+        for w in (150..=260u64).step_by(tier.pick(3, 1)) {
+            special.push((l, vec![(0, l - w), (l - 1, l - 1)]));
+            special.push((l, vec![(l - 1, l - 1), (1, l - w)]));
+            special.push((l, vec![(0, l / 2), (l / 2 + 1, l - w - 100), (l - 2, l - 1)]));
+        }
+    }
+    special
+}
+
 pub fn run_c06(run: &mut Run) -> Stats {
     let tier = run.tier;
     let lens: Vec<u64> = tier.pick(
@@ -1174,26 +1233,7 @@ pub fn run_c06(run: &mut Run) -> Stats {
     //  * near-overflow: L within a few bytes of 2^64 and ranges that leave a window of 150..260
     //    bytes, where the 80-bytes-per-part estimate still says "multipart" but the exact length
     //    crosses 2^64 (=> 413) or just does not
-    let mut special: Vec<(u64, Vec<(u64, u64)>)> = Vec::new();
-    for k in 3..=19u32 {
-        let p = 10u64.pow(k);
-        let l1 = p.saturating_add(5);
-        for j in 0..3u64 {
-            special.push((l1, vec![(0, 0), (p - 1 - j, p - 1)]));
-            special.push((l1, vec![(p - 1 - j, p - 1 - j), (3, 4), (p - 2, p - 1)]));
-        }
-        for d in 1..=3u64 {
-            special.push((p - d, vec![(0, 0), (5, 5)]));
-            special.push((p - d, vec![(p - d - 1, p - d - 1), (1, 2)]));
-        }
-    }
-    for l in [u64::MAX, u64::MAX - 1, u64::MAX - 40] {
-        for w in (150..=260u64).step_by(tier.pick(3, 1)) {
-            special.push((l, vec![(0, l - w), (l - 1, l - 1)]));
-            special.push((l, vec![(l - 1, l - 1), (1, l - w)]));
-            special.push((l, vec![(0, l / 2), (l / 2 + 1, l - w - 100), (l - 2, l - 1)]));
-        }
-    }
+    let special = multipart_specials(tier);
     let n_special = special.len();
     for (si, _) in special.iter().enumerate() {
         for (hi, _) in hsets.iter().enumerate().take(3) {
